@@ -32,7 +32,8 @@ proleptic timeline, the timezone applied, or taken as UTC when there is none) an
 timezone offset in minutes.
 `opq tag rep`: a value of a type whose identity is decided by a canonical representative computed
 by the harness: tag 1 = xs:QName (`rep` = code points of `{namespace}local`), 2 = a duration
-(`[months, microseconds]`), 3 = xs:hexBinary, 4 = xs:base64Binary (`rep` = the octets). -/
+(`[months, microseconds]`), 3 = xs:hexBinary, 4 = xs:base64Binary (`rep` = the octets).
+`unt s`: an xs:untypedAtomic with the string `s`. -/
 inductive Key where
   | int (v : Int)
   | dec (v : Rat)
@@ -44,6 +45,7 @@ inductive Key where
   | bool (b : Bool)
   | date (year utc : Int) (tz : Option Int)
   | opq (tag : Nat) (rep : List Int)
+  | unt (s : List Nat)
   deriving DecidableEq, Inhabited
 
 inductive Err where
@@ -53,53 +55,57 @@ inductive Err where
 deriving instance DecidableEq for Except
 
 /-- Equivalence class of a value under Python `==` (NaN apart): `int`, `Decimal`, `float` and
-`bool` compare by exact numeric value (`True == 1 == 1.0 == Decimal(1)`), `str` and `AnyURI` by
+a boolean only equals the same boolean for every key relation of the code (since the fix "boolean
+keys of a map are kept apart from the numbers 0 and 1": `same_key` has a bool test, the dict stores
+booleans under a wrapper `dict_key`); `int`, `Decimal`, `float` compare by exact numeric value, `str` and `AnyURI` by
 their string (uri.py `AnyURI.__eq__`), dates by `AbstractDateTime._compare` (datetime.py:257-289,
-after C11's fix "values of contiguous years are compared as instants"): equal years → the two
-`datetime`s with a missing timezone read as UTC; years differing by at most 2 → `todelta()`, i.e.
-again the instants with a missing timezone read as UTC; otherwise unequal.  Two real dates with
-the same instant have years at most 1 apart, so `==` on dates is "same `utc` field"
-(the `year` field of a `Key.date` is the lexical year of that very date — harness invariant). -/
+after C11's fix "values of contiguous years are compared as instants"): the instants with a missing
+timezone read as UTC (the `year` field of a `Key.date` is the lexical year of that very date —
+harness invariant), and `same_key` additionally requires both or neither value to have a timezone;
+QNames, durations and binaries by value within their kind (`same_key` keeps hexBinary and
+base64Binary apart).  `Key.eqRep` is the class under `compare.same_key`, the relation of all scans. -/
 inductive EqRep where
-  | num (v : Rat) | nan | inf (neg : Bool) | text (s : List Nat) | date (utc : Int)
-  | opq (tag : Nat) (rep : List Int)
+  | num (v : Rat) | nan | inf (neg : Bool) | text (s : List Nat) | date (utc : Int) (aware : Bool)
+  | opq (tag : Nat) (rep : List Int) | bool (b : Bool)
   deriving DecidableEq
 
 def Key.eqRep : Key → EqRep
   | .int v => .num v
   | .dec v => .num v
   | .dbl v _ => .num v
-  | .bool b => .num (if b then 1 else 0)
+  | .bool b => .bool b
   | .dnan => .nan
   | .dinf n => .inf n
   | .str s => .text s
   | .uri s => .text s
-  | .date _ u _ => .date u
-  | .opq t r => .opq (if t = 4 then 3 else t) r   -- AbstractBinary.__eq__ compares the octets across the two types
+  | .unt s => .text s
+  | .date _ u tz => .date u tz.isSome         -- same_key: both or neither value has a timezone
+  | .opq t r => .opq t r                      -- same_key: hexBinary / base64Binary are not comparable
 
 /-- What a Python dict distinguishes: `hash(k)` and `==`.  Hashes agree with `==` on numbers,
-booleans and strings (`hash(1) = hash(1.0) = hash(Decimal(1)) = hash(True)`,
+and strings (`hash(1) = hash(1.0) = hash(Decimal(1))`; booleans are wrapped by `dict_key`),
 `AnyURI.__hash__ = hash(value)`), on dates since the fix "date/time values hash by their instant"
 (`hash(self.todelta())`), on QNames and durations; an xs:hexBinary and an xs:base64Binary with the
 same octets are `==` but hash their *text* (`hash(value.upper())` / `hash(value)`), which differs
 unless both are empty (assumption: no accidental collision otherwise), so only the two empty
 binaries meet in a dict. -/
 inductive DictRep where
-  | num (v : Rat) | nan | inf (neg : Bool) | text (s : List Nat) | date (utc : Int)
-  | opq (tag : Nat) (rep : List Int)
+  | num (v : Rat) | nan | inf (neg : Bool) | text (s : List Nat) | date (utc : Int) (aware : Bool)
+  | opq (tag : Nat) (rep : List Int) | bool (b : Bool)
   deriving DecidableEq
 
 def Key.dictRep : Key → DictRep
   | .int v => .num v
   | .dec v => .num v
   | .dbl v _ => .num v
-  | .bool b => .num (if b then 1 else 0)
+  | .bool b => .bool b
   | .dnan => .nan
   | .dinf n => .inf n
   | .str s => .text s
   | .uri s => .text s
-  | .date _ u _ => .date u
-  | .opq t r => .opq (if t = 4 ∧ r = [] then 3 else t) r   -- the two *empty* binaries have the same (empty) text, hence the same hash
+  | .unt s => .text s
+  | .date _ u tz => .date u tz.isSome         -- dict_key wraps the values without timezone
+  | .opq t r => .opq t r                      -- dict_key wraps xs:base64Binary values
 
 /-- same dict slot: `k in _map` / `_map[k]` of `XPathMap` (maps.py: NaN is stored under `None`,
 so two NaNs meet). -/
@@ -110,15 +116,28 @@ def dictEq (a b : Key) : Bool := decide (a.dictRep = b.dictRep)
 is never the same key as a string (the `AbstractQName` xor test). -/
 def scanEq (a b : Key) : Bool := decide (a.eqRep = b.eqRep)
 
-/-- transcription of `compare.same_key(k1, k2)` (compare.py:387-400) -/
+/-- transcription of `compare.same_key(k1, k2)` (compare.py, after the fixes of fix-c15-3: boolean,
+timezone and binary-type tests before the final `k1 == k2`) -/
 def sameKeyPy (k1 k2 : Key) : Bool :=
   match k1 with
-  | .str s | .uri s =>                     -- isinstance(k1, (str, AnyURI, UntypedAtomic))
+  | .str s | .uri s | .unt s =>            -- isinstance(k1, (str, AnyURI, UntypedAtomic))
     match k2 with
-    | .str t | .uri t => s == t            -- str(k1) == str(k2)
+    | .str t | .uri t | .unt t => s == t   -- str(k1) == str(k2)
     | _ => false
   | .dnan => k2 == .dnan                   -- isinstance(k2, float) and math.isnan(k2)
-  | _ => k2.eqRep != .nan && decide (k1.eqRep = k2.eqRep)   -- k1 == k2
+  | .bool b => k2 == .bool b               -- isinstance(k1, bool) ^ isinstance(k2, bool) → False; else ==
+  | .date _ u tz =>
+    match k2 with
+    | .date _ u' tz' => tz.isSome == tz'.isSome && u == u'   -- timezone presence, then == (instants)
+    | _ => false
+  | .opq t r =>
+    match k2 with
+    | .opq t' r' => t == t' && r == r'     -- binaries: same type; QName / durations: ==
+    | _ => false
+  | k1 =>                                  -- numbers: k1 == k2 (a boolean k2 is excluded by the xor test)
+    match k2 with
+    | .bool _ => false
+    | k2 => k2.eqRep != .nan && decide (k1.eqRep = k2.eqRep)
 
 /-! ## 2. pure functions -/
 
@@ -156,10 +175,10 @@ def mapGet (es : Entries (List β)) (k : Key) : List β := (dictGet es k).getD [
 `any(same_key(k, key) for k in keys)`; `same_key` is `scanEq` on this domain (`sameKeyPy_eq_scanEq`) -/
 def mapContains (es : Entries α) (k : Key) : Bool := es.any fun e => scanEq e.1 k
 
-/-- `map:put` (functions.py:162-177):
-`items = {k: v for k, v in map_.items() if not same_key(k, key)}; items[key] = value; XPathMap(items)` -/
+/-- `map:put` (functions.py, after the boolean-key fix):
+`items = [(k, v) for k, v in map_.items() if not same_key(k, key)]; items.append((key, value)); XPathMap(items)` -/
 def mapPut (es : Entries α) (k : Key) (v : α) : Except Err (Entries α) :=
-  mapCtor (dictSet (dictOfList (es.filter fun e => !scanEq e.1 k)) k v)
+  mapCtor ((es.filter fun e => !scanEq e.1 k) ++ [(k, v)])
 
 /-- `map:remove`: keep `(k, v)` when `not any(same_key(k, x) for x in keys)` -/
 def mapRemove (es : Entries α) (ks : List Key) : Except Err (Entries α) :=
@@ -175,7 +194,7 @@ inductive Policy where
 /-- `isinstance(k1, SAFE_KEY_ATOMIC_TYPES) or isinstance(k1, float) and not math.isnan(k1)`
 (functions.py:233): int (and so bool), Decimal, dates, durations, binaries, non-NaN doubles take the dict fast path. -/
 def isSafeKey : Key → Bool
-  | .str _ | .uri _ | .dnan => false
+  | .str _ | .uri _ | .unt _ | .dnan => false
   | .opq 1 _ => false                      -- a QName is not in SAFE_KEY_ATOMIC_TYPES
   | _ => true
 
@@ -297,6 +316,9 @@ def pyAtomEq (a b : Key) : Bool :=
   | .bool _, _ => false
   | _, .bool _ => false
   | .str s, .str t | .str s, .uri t | .uri s, .str t | .uri s, .uri t => s == t   -- strcoll == 0
+  | .unt s, .str t | .unt s, .uri t | .unt s, .unt t | .str s, .unt t | .uri s, .unt t => s == t
+  | .unt _, _ => false                                 -- an untypedAtomic against a non-string
+  | _, .unt _ => false
   -- value1 is a float
   | .dnan, b => b == .dnan
   | .dinf n, b => b == .dinf n
@@ -310,7 +332,8 @@ def pyAtomEq (a b : Key) : Bool :=
   | .dec w, .dbl v _ => v == roundDbl w
   | .int w, .dbl v _ => (w : Rat) == v
   | _, .dbl _ _ => false
-  -- value1 != value2
+  -- value1 != value2 (for dates the plain `==`: instants, a missing timezone read as UTC)
+  | .date _ u _, .date _ u' _ => u == u'
   | a, b => decide (a.eqRep = b.eqRep)
 
 /-- function arguments used with the higher-order functions (all pure, none allocates):
@@ -418,11 +441,10 @@ structure Dialect where
   arrTail : List Seq → Except Err (List Seq)
   arrReverse : List Seq → List Seq
 
-/-- `item(value)` for an array item of a `?` lookup: `XPathArray.__call__` wants `isinstance(x, int)`,
-which a Python `bool` satisfies -/
+/-- `item(value)` for an array item of a `?` lookup: `XPathArray.__call__` wants an `int` that is not
+a `bool` (XPTY0004 otherwise) -/
 def pyArrIndex : Key → Except Err Int
   | .int v => .ok v
-  | .bool b => .ok (if b then 1 else 0)
   | _ => .error .XPTY0004
 
 def pyDialect (alias : Bool) : Dialect where
@@ -492,9 +514,15 @@ inductive Op where
   | deq (a b : Nat)                              -- `deep-equal($a, $b)`
   deriving Inhabited
 
+/-- the map *constructor* takes its keys through `get_atomized_operand`, which turns an
+xs:untypedAtomic into an xs:string (maps.py `evaluate`); map:entry / map:put keep the value -/
+def ctorKey : Key → Key
+  | .unt s => .str s
+  | k => k
+
 /-- literal keys of an operation (what the clash predicate of the findings F15d/F15f looks at) -/
 def opKeys : Op → List Key
-  | .mCtor es => es.map (·.1)
+  | .mCtor es => es.map fun e => ctorKey e.1
   | .mPut _ k _ | .mGet _ k | .mContains _ k | .mEntry k _ | .mFind _ k => [k]
   | .mRemove _ ks => ks
   | .lookup _ (some ks) => ks
@@ -512,15 +540,6 @@ def readVars : Op → Option (List Nat)
 agreement theorem and clash predicate) -/
 def opIsDeq : Op → Bool
   | .deq .. => true
-  | _ => false
-
-def Key.isBool : Key → Bool
-  | .bool _ => true
-  | _ => false
-
-/-- `?` with a boolean key specifier: Python takes it as the position 0/1 of an array (F15d) -/
-def opBoolLookup : Op → Bool
-  | .lookup _ (some ks) => ks.any Key.isBool
   | _ => false
 
 structure St where
@@ -638,7 +657,7 @@ def evalOp (d : Dialect) (st : St) : Op → Except Err (Store × Seq)
   | .seq parts => .ok (st.store, parts.flatMap fun
       | .lit k => [.atom k]
       | .var i => st.var i)
-  | .mCtor es => liftAlloc st.store ((d.mapCtor (es.map fun (k, i) => (k, st.var i))).map .map)
+  | .mCtor es => liftAlloc st.store ((d.mapCtor (es.map fun (k, i) => (ctorKey k, st.var i))).map .map)
   | .mPut m k v => do
       let es ← asMap st.store (st.var m)
       liftAlloc st.store ((d.mapPut es k (st.var v)).map .map)
